@@ -259,6 +259,43 @@ def _quantified_form(model, rep, R, m, tail) -> bool:
     return True
 
 
+def check_flag_writers(model, rep, R='C20.locking'):
+    """"a worm gear whose mating was flagged self-locking": the flag is what the last accepted worm-mating declaration wrote.
+    Inside the gear classes only the constructor and the `self_locking` setter itself may write the private field - a write
+    from another setter or method (e.g. a `driven_by` setter that "invalidates" it) changes the verdict of a mating that is
+    still in force"""
+    n = 0
+    for cname, ci in sorted(model.classes.items()):
+        st_ = model.find_setter(cname, 'self_locking') if hasattr(model, 'find_setter') else None
+        if st_ is None or st_.cls != cname:
+            continue
+        fld = None
+        for x in ast.walk(st_.node):
+            if isinstance(x, ast.Attribute) and isinstance(x.ctx, ast.Store) and isinstance(x.value, ast.Name) and x.value.id == 'self':
+                fld = x.attr
+        if fld is None:
+            continue
+        n += 1
+        bad = []
+        for sub in [cname] + sorted(model.subclasses(cname, strict=True)):
+            for mem in model.classes[sub].all_members():
+                if mem.name == '__init__' or (mem.kind == 'setter' and mem.name == 'self_locking'):
+                    continue
+                for x in ast.walk(mem.node):
+                    if isinstance(x, ast.Attribute) and isinstance(x.ctx, ast.Store) and isinstance(x.value, ast.Name) and x.value.id == 'self' \
+                            and model.mangle(sub, x.attr) == model.mangle(cname, fld):
+                        bad.append((mem, x.lineno))
+                    if isinstance(x, ast.Attribute) and isinstance(x.ctx, ast.Store) and x.attr == 'self_locking' \
+                            and isinstance(x.value, ast.Name) and x.value.id == 'self':
+                        bad.append((mem, x.lineno))
+        rep.decide(not bad, R, f'{cname}.self_locking:writers',
+                   f'{bad[0][0].qualname if bad else ""} writes the self-locking flag (line {bad[0][1] if bad else 0}): '
+                   f'the verdict of the worm mating in force is changed by something else than a worm-mating declaration',
+                   loc=f'{bad[0][0].module}:{bad[0][1]}' if bad else st_.loc)
+    if n == 0:
+        rep.cannot(R, 'self_locking:writers', 'no class with a self_locking setter found')
+
+
 def check_locking(model, rep, m, R='C20.locking'):
     """evaluate the tail of __init__ (after the elements are stored) with the element tuple symbolic"""
     body = strip_docstring(m.node.body)
@@ -391,6 +428,7 @@ def check(model, rep):
     rep.inspect(len(list(ast.walk(m.node))))
     check_concrete(model, rep, m)
     check_locking(model, rep, m)
+    check_flag_writers(model, rep)
     # the chain is what the relation functions declared: every accepted declaration links master.drives / slave.driven_by
     # (C10's effect rules; a declaration that returns without linking leaves an older link in force)
     from sa.core import Report
